@@ -257,6 +257,12 @@ def _may_precede(a: ast.AST, b: ast.AST, parents, fn) -> bool:
                 if isinstance(blk, list) and any(x is child_a for x in blk) and any(x is child_b for x in blk):
                     ia = next(i for i, x in enumerate(blk) if x is child_a)
                     ib = next(i for i, x in enumerate(blk) if x is child_b)
+                    if ia < ib and isinstance(child_a, ast.If):
+                        # `a` sits in an arm that cannot fall through (guard clause ending in return / raise / continue):
+                        # control never reaches the later statement on that path
+                        arm = child_a.body if any(a is x for st_ in child_a.body for x in ast.walk(st_)) else child_a.orelse
+                        if terminates(arm):
+                            return False
                     return ia < ib
             # different fields of the same compound statement: if-body vs orelse are exclusive; a test precedes its body
             if isinstance(p, ast.If):
@@ -463,7 +469,12 @@ def _never_none(e: ast.expr, fn, depth=0, parents=None, at=None) -> bool:
         return e.value is not None
     if isinstance(e, (ast.JoinedStr, ast.BinOp)):
         return True
+    if isinstance(e, ast.IfExp):
+        return _never_none(e.body, fn, depth + 1, parents, at) and _never_none(e.orelse, fn, depth + 1, parents, at)
     if isinstance(e, ast.Call):
+        if isinstance(e.func, ast.Attribute) and e.func.attr in ("strip", "lstrip", "rstrip", "replace", "lower", "upper", "join", "format",
+                                                                  "removesuffix", "removeprefix"):
+            return True          # str methods return str
         if call_name(e) in ("os.path.relpath", "os.path.basename", "re.sub", "str", "os.path.join",
                             "os.path.abspath", "os.path.normpath"):
             return True
